@@ -85,7 +85,23 @@ def check_stack(ctx, case_seed):
     fp = fparams
     if placement == 'method':
         fp = ((self_name, PO if sigs.has_kind(fparams, PO) else PK, None, None),) + fparams
-    lines = ['from sigtools import wrappers', 'import functools']
+    lines = ['from sigtools import wrappers, modifiers', 'import functools, inspect']
+    # how the decorated function is "dressed" before the wrappers see it: update_wrapper copies its
+    # __dict__, so a __signature__ / forger / hint it carries must not shadow the wrapper's own
+    dress = rnd.choice(('plain', 'plain', 'plain', 'annotate', 'own-signature', 'kwoargs'))
+    named = [p for p in fparams if p[1] in (PK, KO)]
+    dress_line = None
+    if dress == 'annotate' and named:
+        dress_line = '@modifiers.annotate(%s=%d)' % (rnd.choice(named)[0], rnd.randint(1, 9))
+    elif dress == 'own-signature':
+        lines.append('def own_signature(f):\n    f.__signature__ = inspect.signature(f)\n    return f\n')
+        dress_line = '@own_signature'
+    elif dress == 'kwoargs' and [p for p in fparams if p[1] == KO]:
+        # a no-op selection (already keyword-only): the function becomes a modifiers wrapper object
+        dress_line = '@modifiers.kwoargs(%r)' % [p for p in fparams if p[1] == KO][0][0]
+    else:
+        dress = 'plain'
+    value_eq = placement != 'function' and rnd.random() < 0.5
     for name, src, n, po, ko, st in decos:
         lines.append(src)
     # decorator objects
@@ -98,12 +114,19 @@ def check_stack(ctx, case_seed):
             lines.append('D%d = wrappers.wrapper_decorator(%s)' % (i, name))
     fdef = 'def %s(%s): return (%r, dict(locals()))' % (fn, sigs.render(fp), fn)
     deco_lines = ['@D%d' % i for i in range(depth)]
+    if dress_line:
+        deco_lines.append(dress_line)
     if placement == 'function':
         lines += deco_lines + [fdef, 'plain = None']
         lines.append('def plain_%s(%s): return (%r, dict(locals()))' % (fn, sigs.render(fp), fn))
     else:
         ind = '    '
         lines.append('class A(object):')
+        if value_eq:
+            # instances that compare (and hash) equal: anything keyed by the instance instead of its
+            # identity hands one instance's bound wrapper to another
+            lines += [ind + 'def __eq__(self, other): return isinstance(other, A)',
+                      ind + 'def __hash__(self): return 7']
         if placement == 'staticmethod':
             lines += [ind + '@staticmethod'] + [ind + l for l in deco_lines] + [ind + fdef]
         else:
@@ -112,7 +135,9 @@ def check_stack(ctx, case_seed):
     src = '\n'.join(lines) + '\n'
     rp = dict(workload='wrap', case_seed=case_seed, source=src)
     w = {'decorated': 'def f(%s)' % sigs.render(fp), 'placement': placement, 'style': style,
-         'decorators': [d[1].splitlines()[0] for d in decos]}
+         'decorators': [d[1].splitlines()[0] for d in decos], 'dress': dress_line or 'plain',
+         'instances_compare_equal': value_eq}
+    ctx.count('C13.dress.' + dress)
     try:
         g = sigs.compile_module(src, tag='vwrap')
     except Exception as e:
@@ -124,9 +149,13 @@ def check_stack(ctx, case_seed):
         obj = g[fn]
         inner = plain
     else:
+        # another instance is touched first (and what it handed out is kept alive)
+        other = g['A']()
+        keep = getattr(other, fn)
         inst = g['A']()
-        mapping = [(inst, '<instance>')]
+        mapping = [(inst, '<instance>'), (other, '<other instance>')]
         obj = getattr(inst, fn)
+        ctx.count('C13.second_instance' + ('_value_equal' if value_eq else ''))
         inner = types.MethodType(plain, inst) if placement == 'method' else plain
     # hand-written composition: d0(d1(... plain ...))
     def compose(level):
